@@ -414,6 +414,8 @@ def faults_strategy(tier):
         "sybil_budget": st.sampled_from([0, 0, 20, 200]),
         "shortlist": st.integers(1, 8),
         "key_mode": st.sampled_from(["random", "an_endpoint_id", "own_id", "a_deaf_id"]),
+        # the searching node itself is shut down (its transport closed) this many virtual seconds into the lookup
+        "stop_at": st.sampled_from([None, None, None, None, 0.0, 0.5, 3.0, 6.0, 12.0]),
         "peers_stored": st.integers(0, 30),
     })
 
@@ -708,15 +710,26 @@ async def faults_async(case, out, loop):
         async def run():
             async for peers in finder:
                 yielded.append(list(peers))
+        stopped = {"done": False}
+        if case.get("stop_at") is not None:
+            def stop_searcher():
+                stopped["done"] = True
+                try:
+                    searcher.stop()
+                except Exception:
+                    pass
+            loop.call_later(case["stop_at"], stop_searcher)
         try:
             await asyncio.wait_for(run(), 200000)
         except asyncio.TimeoutError:
-            out.violate("faults:lookup-hangs:" + case["kind"], "no end within 200000 virtual s; %d requests sent; endpoints %r" % (
-                requests[0], sorted(set(eps))))
+            out.violate("faults:lookup-hangs:" + case["kind"] + (":searcher-stopped" if stopped["done"] else ""),
+                        "no end within 200000 virtual s; %d requests sent; endpoints %r" % (requests[0], sorted(set(eps))))
             return
         except Exception as e:
             out.violate("faults:lookup-raises:%s:%s" % (type(e).__name__, case["kind"]), repr(e)[:200])
             return
+        if stopped["done"]:
+            out.label("searcher_stopped_during_lookup")
         elapsed = loop.time() - t0
         bound = (requests[0] + 1) * RPC_T + 0.001
         out.check(elapsed <= bound, "faults:lookup-slower-than-bound:" + case["kind"],
@@ -791,5 +804,5 @@ PARTS = [
          essential=("m:89-100", "m:17-88", "storers:1", "storers:3")),
     Part("faults", faults_strategy, lambda c: _run(faults_async, c), 400, 2000, quick_shards=6, thorough_shards=16,
          essential=("kind:node", "kind:value", "contacted:silent", "contacted:sybil", "contacted:endless_pages", "contacted:many_closer",
-                    "deaf_requester_history", "contacted:deaf_requester")),
+                    "deaf_requester_history", "contacted:deaf_requester", "searcher_stopped_during_lookup")),
 ]
